@@ -64,7 +64,7 @@ func safely(f func()) (panicked interface{}) {
 
 // c16: dynamic half of C16 — the parsed tree is bit-for-bit what it was after any mix of the four API paths.
 func runC16(res *Result, tier string, seed int64, replay string) {
-	res.Rule = "documents = all testdata fixtures + seeded grammar documents (rich generator: head attributes, classes, fonts, inline styles, all leaf kinds); each is parsed once (RenderWithAST), deep-snapshotted (values, slice len/cap, backing-array identity, spare capacity), then rendered again through RenderFromAST, NewFromAST+RenderComponentString, RenderFromAST(debug) and twice through Render(WithCache) and re-snapshotted; non-trivial = document with at least one section; distinct by source text"
+	res.Rule = "documents = all testdata fixtures + explicit documents (head-reading; invalid attribute after valid ones; children in orders a renderer might normalise) + seeded grammar documents (rich generator: head attributes, classes, fonts, inline styles, all leaf kinds); each is parsed once (RenderWithAST), deep-snapshotted (values, slice len/cap, backing-array identity, spare capacity), then rendered again through RenderFromAST, NewFromAST+RenderComponentString, RenderFromAST(debug) and twice through Render(WithCache) and re-snapshotted; non-trivial = document with at least one section; distinct by source text"
 	var docs []struct{ name, src string }
 	for _, f := range loadFixtures() {
 		docs = append(docs, struct{ name, src string }{"fixture:" + f.Name, f.MJML})
@@ -73,6 +73,19 @@ func runC16(res *Result, tier string, seed int64, replay string) {
 	// attribute after valid ones, defaults and inline rules the renderer reads while rendering
 	docs = append(docs, struct{ name, src string }{"explicit:head-reading", cacheDocs[len(cacheDocs)-1]})
 	docs = append(docs, struct{ name, src string }{"explicit:invalid-after-valid", `<mjml><mj-body><mj-section padding="1px" bogus-a="x" full-width="full-width" bogus-b="y"><mj-column width="50%" nope="1"><mj-image src="i.png" alt="a" href="u" zzz="1" title="t"/></mj-column></mj-section></mj-body></mjml>`})
+	// children written in an order a renderer might "normalise": text before title, several titles, links and images with raw
+	// content between them, duplicated and out-of-order social networks, head elements after the body
+	docs = append(docs, struct{ name, src string }{"explicit:child-orders", `<mjml><mj-body><mj-section><mj-column>` +
+		`<mj-accordion><mj-accordion-element><mj-accordion-text>X1</mj-accordion-text><mj-accordion-title>T1</mj-accordion-title></mj-accordion-element>` +
+		`<mj-accordion-element><mj-accordion-title>T2a</mj-accordion-title><mj-accordion-text>X2</mj-accordion-text><mj-accordion-title>T2b</mj-accordion-title></mj-accordion-element></mj-accordion>` +
+		`<mj-social><mj-social-element name="twitter" href="b">B</mj-social-element><mj-raw><i>r</i></mj-raw><mj-social-element name="facebook" href="a">A</mj-social-element><mj-social-element name="twitter" href="b">B</mj-social-element></mj-social>` +
+		`<mj-navbar><mj-navbar-link href="/z">Z</mj-navbar-link><mj-raw><i>r</i></mj-raw><mj-navbar-link href="/a">A</mj-navbar-link><mj-navbar-link href="/z">Z</mj-navbar-link></mj-navbar>` +
+		`<mj-carousel><mj-carousel-image src="z.png"/><mj-carousel-image src="a.png"/><mj-carousel-image src="z.png"/></mj-carousel>` +
+		`<mj-text>  padded <b>b</b>  text &amp; entity  </mj-text><mj-table><tr><td>2</td></tr><tr><td>1</td></tr></mj-table>` +
+		`</mj-column><mj-column><mj-text>second</mj-text></mj-column></mj-section>` +
+		`<mj-section><mj-group><mj-column width="70%"><mj-text>wide</mj-text></mj-column><mj-column width="30%"><mj-text>narrow</mj-text></mj-column></mj-group></mj-section>` +
+		`<mj-hero><mj-button href="u">B</mj-button><mj-text>after button</mj-text></mj-hero></mj-body>` +
+		`<mj-head><mj-title>late head</mj-title><mj-attributes><mj-text color="#111111"/><mj-all padding="1px"/></mj-attributes></mj-head></mjml>`})
 	n := 300
 	if tier == "thorough" {
 		n = 6000
